@@ -78,7 +78,10 @@ let set_view v =
   cur_view := v;
   let t = Trie.mk key_len O v in
   let at, _ = Emit.annotate t (n_of_int 1) in
-  cur_atrie := at
+  cur_atrie := at;
+  State.store 0 v at
+
+let () = State.set_view_hook := set_view
 
 let print_table () =
   let entries = Emit.atable !cur_atrie [] in
@@ -179,7 +182,10 @@ let handle (line : string) =
   | _ -> (
       match Core_cmds.handle toks with
       | Some reply -> say reply
-      | None -> say ("error unknown command: " ^ line))
+      | None -> (
+          match Img_cmds.handle toks with
+          | Some reply -> say reply
+          | None -> say ("error unknown command: " ^ line)))
 
 let () =
   try
